@@ -6,6 +6,9 @@
 #include <sys/stat.h>
 #include <unistd.h>
 #include "vi.h"
+#ifdef NEATVI_VERIF
+#include "verif.h"
+#endif
 
 #define REG(s)	((s)[0] != '\\' ? (unsigned char) (s)[0] : 0x80 | (unsigned char) (s)[1])
 
@@ -954,6 +957,14 @@ static int ec_glob(char *loc, char *cmd, char *arg, char *txt)
 		char *ln = lbuf_get(xb, i);
 		if ((rstr_find(re, ln, LEN(offs) / 2, offs, 0) < 0) == not) {
 			xrow = i;
+#ifdef NEATVI_VERIF
+			if (verif_on()) {
+				struct sbuf *sb = verif_rec("gv");
+				verif_int(sb, "row", i);
+				verif_int(sb, "dep", xgdep);
+				verif_emit(sb);
+			}
+#endif
 			if (ex_exec(s))
 				break;
 			i = MIN(i, xrow);
@@ -1386,6 +1397,25 @@ static int ex_exec(char *ln)
 			ret = excmds[idx].ec(loc, cmd, arg, txt);
 		else
 			ex_show("unknown command");
+#ifdef NEATVI_VERIF
+		if (verif_on()) {
+			struct sbuf *sb = verif_rec("ec");
+			verif_key(sb, "loc");
+			verif_hex(sb, loc, -1);
+			verif_key(sb, "cmd");
+			verif_hex(sb, cmd, -1);
+			verif_key(sb, "arg");
+			verif_hex(sb, arg, -1);
+			verif_key(sb, "txt");
+			verif_hex(sb, txt, -1);
+			verif_int(sb, "idx", idx);
+			verif_int(sb, "ret", ret);
+			verif_int(sb, "dep", xgdep);
+			verif_int(sb, "row", xrow);
+			verif_int(sb, "n", xb ? lbuf_len(xb) : -1);
+			verif_emit(sb);
+		}
+#endif
 		free(txt);
 	}
 	return ret;
@@ -1396,8 +1426,70 @@ int ex_command(char *ln)
 {
 	int ret = ex_exec(ln);
 	lbuf_modified(xb);
+#ifdef NEATVI_VERIF
+	if (verif_on()) {
+		struct sbuf *sb = verif_rec("ex");
+		verif_key(sb, "ln");
+		verif_hex(sb, ln, -1);
+		verif_int(sb, "ret", ret);
+		verif_int(sb, "quit", xquit);
+		ex_verif_state(sb);
+		verif_emit(sb);
+	}
+#endif
 	return ret;
 }
+
+#ifdef NEATVI_VERIF
+/* editor state shared by "ex" and "vi" records */
+void ex_verif_state(struct sbuf *sb)
+{
+	int i;
+	verif_int(sb, "row", xrow);
+	verif_int(sb, "off", xoff);
+	verif_int(sb, "top", xtop);
+	verif_int(sb, "left", xleft);
+	verif_int(sb, "vis", xvis);
+	verif_int(sb, "gdep", xgdep);
+	verif_key(sb, "opts");
+	sbuf_chr(sb, '{');
+	for (i = 0; i < LEN(options); i++)
+		sbuf_printf(sb, "%s\"%s\":%d", i ? "," : "",
+			options[i].abbr, *options[i].var);
+	sbuf_chr(sb, '}');
+	verif_key(sb, "kwd");
+	verif_hex(sb, xkwd, -1);
+	verif_int(sb, "kwddir", xkwddir);
+	verif_key(sb, "rep");
+	verif_hex(sb, xrep, -1);
+	verif_key(sb, "regs");
+	reg_verif_dump(sb);
+	verif_key(sb, "bufs");
+	sbuf_chr(sb, '[');
+	for (i = 0; i < LEN(bufs); i++) {
+		struct buf *b = &bufs[i];
+		if (i)
+			sbuf_chr(sb, ',');
+		if (!b->lb) {
+			sbuf_str(sb, "null");
+			continue;
+		}
+		sbuf_printf(sb, "{\"bid\":%d", (int) b->id);
+		verif_key(sb, "path");
+		verif_hex(sb, b->path, -1);
+		verif_int(sb, "mtime", b->mtime);
+		verif_int(sb, "row", b->row);
+		verif_int(sb, "off", b->off);
+		verif_int(sb, "top", b->top);
+		verif_int(sb, "left", b->left);
+		verif_int(sb, "td", b->td);
+		verif_key(sb, "lb");
+		lbuf_verif_dump(b->lb, sb, i == 0);
+		sbuf_chr(sb, '}');
+	}
+	sbuf_chr(sb, ']');
+}
+#endif
 
 /* ex main loop */
 void ex(void)
